@@ -8,7 +8,12 @@
    roots are exactly: the value slots and the saved-environment slot (third) of each header.
    Tie: the lock-step (harness/ocaml/verifier/vrun.ml, `LOCKSTEP kinds`) compares these kinds with the
    real gc_stack tags of all slots 0..sp before every instruction of every traced run;
-   checks/parts/gcschedule.py runs every program under forced collection schedules. *)
+   checks/parts/gcschedule.py runs every program under forced collection schedules.
+   One stated exemption of the tie: the slot that RETHROW leaves in the result position of the frame it
+   removes (the model writes SVal) holds a copy of whatever was on top when the fault happened — a
+   value, or the frame's own return-address slot when nothing had been pushed; it is never read and the
+   handler's CLEAR_STACK removes it, so the lock-step does not compare tags while that slot is on the
+   stack (a non-root tag there loses nothing, a root tag there refers to a cell that was rooted anyway). *)
 From Coq Require Import List Arith Bool.
 From NV Require Import Gen.Opcodes Verifier.Shape Verifier.Effect Verifier.Verify Verifier.VerifyInv
      Verifier.VerifySound Verifier.Roots Verifier.UnwindExample.
